@@ -61,7 +61,11 @@ impl<SlotType: Copy+Debug, const BUFFER_SIZE: usize, const METRICS: bool, const 
                     }
                     return false;
                 }
+                #[cfg(feature = "verif")]
+                crate::verif::yield_point_at("stack.push.write", self as *const Self as usize);
                 mutable_self.buffer[self.head as usize] = element;
+                #[cfg(feature = "verif")]
+                crate::verif::yield_point_at("stack.push.head", self as *const Self as usize);
                 mutable_self.head += 1;
                 self.flag.store(false, Ordering::Release);
                 if METRICS {
@@ -93,7 +97,11 @@ impl<SlotType: Copy+Debug, const BUFFER_SIZE: usize, const METRICS: bool, const 
                     }
                     return None;
                 }
+                #[cfg(feature = "verif")]
+                crate::verif::yield_point_at("stack.pop.head", self as *const Self as usize);
                 mutable_self.head -= 1;
+                #[cfg(feature = "verif")]
+                crate::verif::yield_point_at("stack.pop.read", self as *const Self as usize);
                 let element = self.buffer[self.head as usize];
                 self.flag.store(false, Ordering::Release);
                 if METRICS {
